@@ -90,6 +90,8 @@ def build(scn):
             oo.on_next(v)
         elif kind == "C":
             oo.on_completed()
+        elif kind == "E":
+            oo.on_error(ValueError("source failed"))
     for v in scn.get("before", [0]):
         send("N", v)
 
@@ -185,6 +187,7 @@ SCENARIOS = [
     {"before": [], "produce": [["N", 1], ["N", 2]], "runs": 4},
     {"before": [0], "produce": [["N", 1], ["C"]], "runs": 5},
     {"before": [0, 1], "produce": [["N", 2]], "runs": 5, "raise_on": 1},
+    {"before": [0, 1], "produce": [["E"]], "runs": 5},
 ]
 
 REPLAY_TEMPLATE = '''#!/venv/bin/python
